@@ -4,6 +4,8 @@ package checks
 // produces a usable case; validity is decided afterwards by the model rules.
 
 import (
+	"strings"
+
 	"pgregory.net/rapid"
 )
 
@@ -41,6 +43,11 @@ var interestingTexts = []string{
 }
 
 func drawText(t *rapid.T, label string, allowEmpty bool) string {
+	if rapid.IntRange(0, 39).Draw(t, label+".long") == 0 {
+		// lengths around the CBOR head-width boundaries
+		n := rapid.SampledFrom([]int{23, 24, 25, 255, 256, 257}).Draw(t, label+".len")
+		return strings.Repeat("t", n)
+	}
 	switch rapid.IntRange(0, 3).Draw(t, label+".kind") {
 	case 0:
 		return rapid.SampledFrom(interestingTexts).Draw(t, label)
@@ -194,6 +201,20 @@ func drawComp(t *rapid.T, valid bool, label string) *MComp {
 }
 
 func drawValidComps(t *rapid.T, label string) []*MComp {
+	if rapid.IntRange(0, 29).Draw(t, label+".many") == 0 {
+		// a long list around the CBOR head-width boundaries: one drawn
+		// component replicated with a varying byte
+		n := rapid.SampledFrom([]int{23, 24, 25, 24, 23, 255, 256}).Draw(t, label+".n.big")
+		proto := drawComp(t, true, label)
+		cs := make([]*MComp, n)
+		for i := range cs {
+			c := proto.Clone()
+			(*c.Value)[0] = byte(i)
+			(*c.Value)[1] = byte(i >> 8)
+			cs[i] = c
+		}
+		return cs
+	}
 	n := rapid.SampledFrom([]int{1, 1, 2, 2, 3, 4}).Draw(t, label+".n")
 	cs := make([]*MComp, n)
 	for i := range cs {
@@ -225,7 +246,7 @@ func GenValid(t *rapid.T, p Prof, setterBuildable bool) *MClaims {
 	if p == P1 && rapid.IntRange(0, 3).Draw(t, "sw.nomeas") == 0 {
 		v := uint64(1)
 		if !setterBuildable {
-			v = rapid.SampledFrom([]uint64{1, 1, 0, 2, 255, 65536}).Draw(t, "nomeas.val")
+			v = rapid.SampledFrom([]uint64{1, 1, 1, 0, 2, 255, 65536, 1<<53 + 1, 1<<63 - 1, 1<<64 - 1}).Draw(t, "nomeas.val")
 		}
 		m.NoMeas = &v
 		if !setterBuildable && genBool.Draw(t, "sw.nilcontainer") {
